@@ -47,6 +47,28 @@ fn shapes() -> Vec<(String, Value)> {
         {"endpointName": "ping", "httpMethod": "GET", "httpPath": "/ping", "args": [], "markers": [], "tags": ["server-request-context"]},
         {"endpointName": "async", "httpMethod": "POST", "httpPath": "/async/{type}", "args": [{"argName": "type", "type": prim("STRING"), "paramType": {"type": "path", "path": {}}, "markers": [], "tags": []}, {"argName": "match", "type": opt(prim("BINARY")), "paramType": {"type": "body", "body": {}}, "markers": [], "tags": []}], "returns": opt(prim("BINARY")), "markers": [], "tags": []}
     ]})], vec![])));
+    // imported (external) types stand for their fallback everywhere, also as set items and map keys (a double there
+    // needs the ordered wrapper) and as path / query / header parameters
+    let ext = |n: &str, fb: Value| json!({"type": "external", "external": {"externalReference": {"name": n, "package": "java.lang"}, "fallback": fb}});
+    v.push(("external-fallbacks-as-keys".to_string(), ir(vec![
+        obj("ExtKeys", vec![("sd", json!({"type": "set", "set": {"itemType": ext("Dbl", prim("DOUBLE"))}})), ("md", map(ext("Dbl", prim("DOUBLE")), prim("STRING"))), ("ms", map(ext("Str", prim("STRING")), ext("Lst", list(prim("DOUBLE"))))), ("od", opt(ext("Dbl", prim("DOUBLE")))), ("key", ext("Long", prim("SAFELONG")))]),
+        uni("ExtUnion", vec![("sd", json!({"type": "set", "set": {"itemType": ext("Dbl", prim("DOUBLE"))}})), ("md", map(ext("Dbl", prim("DOUBLE")), list(r("ExtKeys"))))]),
+        json!({"type": "alias", "alias": {"typeName": tn("ExtSetAlias"), "alias": {"type": "set", "set": {"itemType": ext("Dbl", prim("DOUBLE"))}}}}),
+        json!({"type": "alias", "alias": {"typeName": tn("ExtMapAlias"), "alias": map(ext("Dbl", prim("DOUBLE")), prim("INTEGER"))}}),
+    ], vec![json!({"serviceName": tn("ExtService"), "endpoints": [
+        {"endpointName": "get", "httpMethod": "POST", "httpPath": "/ext/{id}", "args": [
+            {"argName": "id", "type": ext("Long", prim("SAFELONG")), "paramType": {"type": "path", "path": {}}, "markers": [], "tags": []},
+            {"argName": "ds", "type": {"type": "set", "set": {"itemType": ext("Dbl", prim("DOUBLE"))}}, "paramType": {"type": "query", "query": {"paramId": "ds"}}, "markers": [], "tags": []},
+            {"argName": "h", "type": opt(ext("Str", prim("STRING"))), "paramType": {"type": "header", "header": {"paramId": "X-H"}}, "markers": [], "tags": []},
+            {"argName": "body", "type": map(ext("Dbl", prim("DOUBLE")), prim("STRING")), "paramType": {"type": "body", "body": {}}, "markers": [], "tags": []}],
+         "returns": {"type": "set", "set": {"itemType": ext("Dbl", prim("DOUBLE"))}}, "markers": [], "tags": []}
+    ]})], vec![])));
+    // path parameters with a regular expression (`{name:regex}`), in the middle and at the end of the template
+    v.push(("regex-path-parameters".to_string(), ir(vec![], vec![json!({"serviceName": tn("FileService"), "endpoints": [
+        {"endpointName": "getFile", "httpMethod": "GET", "httpPath": "/files/{path:.+}", "args": [{"argName": "path", "type": prim("STRING"), "paramType": {"type": "path", "path": {}}, "markers": [], "tags": []}], "returns": opt(prim("BINARY")), "markers": [], "tags": []},
+        {"endpointName": "list", "httpMethod": "GET", "httpPath": "/list/{prefix:.*}", "args": [{"argName": "prefix", "type": prim("STRING"), "paramType": {"type": "path", "path": {}}, "markers": [], "tags": []}], "returns": list(prim("STRING")), "markers": [], "tags": []},
+        {"endpointName": "put", "httpMethod": "PUT", "httpPath": "/b/{bucket}/o/{type:[a-z]+}/{rest:.+}", "args": [{"argName": "bucket", "type": prim("RID"), "paramType": {"type": "path", "path": {}}, "markers": [], "tags": []}, {"argName": "type", "type": prim("STRING"), "paramType": {"type": "path", "path": {}}, "markers": [], "tags": []}, {"argName": "rest", "type": prim("STRING"), "paramType": {"type": "path", "path": {}}, "markers": [], "tags": []}, {"argName": "body", "type": prim("BINARY"), "paramType": {"type": "body", "body": {}}, "markers": [], "tags": []}], "markers": [], "tags": []}
+    ]})], vec![])));
     // one object per keyword-like field name (so that a failure names the keyword)
     for kw in ["as", "async", "await", "break", "const", "continue", "crate", "dyn", "else", "enum", "extern", "false", "fn", "for", "if", "impl", "in", "let", "loop", "match", "mod", "move", "mut", "pub", "ref", "return", "self", "static", "struct", "super", "trait", "true", "type", "unsafe", "use", "where", "while", "abstract", "become", "box", "do", "final", "macro", "override", "priv", "try", "typeof", "unsized", "virtual", "yield", "union", "builder", "build", "new", "default", "clone", "from", "into"] {
         v.push((format!("field-named:{}", kw), ir(vec![obj("KwObject", vec![(kw, prim("STRING")), ("other", opt(prim("INTEGER")))]), obj("KwOptObject", vec![("first", prim("BOOLEAN")), (kw, opt(prim("STRING")))]), obj("KwListObject", vec![(kw, list(prim("DOUBLE")))]), uni("KwUnion", vec![(kw, prim("DOUBLE"))])], vec![], vec![])));
@@ -200,5 +222,94 @@ pub fn cases(seed: u64, tier: Tier) -> Cases {
         }
     }
     let _ = case_of_doc;
+    crate_mode(&mut cs, &mut rng, tier);
     cs
+}
+
+/// Full-crate output (`Config::build_crate`): one document per subset of {types, errors, services} (so that every
+/// combination of runtime dependencies the generated manifest can list occurs) plus seeded documents; the generated
+/// crates — their own Cargo.toml included — are built as members of one workspace whose only addition is a
+/// `[patch.crates-io]` that points the runtime crates at /repo.
+fn crate_mode(cs: &mut Cases, rng: &mut Rng, tier: Tier) {
+    let pkg = "com.palantir.crates";
+    let tn = |n: &str| json!({"name": n, "package": pkg});
+    let prim = |p: &str| json!({"type": "primitive", "primitive": p});
+    let types = vec![json!({"type": "object", "object": {"typeName": tn("Thing"), "fields": [{"fieldName": "id", "type": prim("UUID")}, {"fieldName": "weights", "type": {"type": "list", "list": {"itemType": prim("DOUBLE")}}}]}}), json!({"type": "enum", "enum": {"typeName": tn("Colour"), "values": [{"value": "RED"}]}})];
+    let errors = vec![json!({"errorName": tn("ThingMissing"), "namespace": "Crates", "code": "NOT_FOUND", "safeArgs": [{"fieldName": "id", "type": prim("UUID")}], "unsafeArgs": [{"fieldName": "why", "type": {"type": "optional", "optional": {"itemType": prim("STRING")}}}]})];
+    let services = vec![json!({"serviceName": tn("ThingService"), "endpoints": [{"endpointName": "count", "httpMethod": "GET", "httpPath": "/things/{kind}", "args": [{"argName": "kind", "type": prim("STRING"), "paramType": {"type": "path", "path": {}}, "markers": [], "tags": []}], "returns": prim("INTEGER"), "markers": [], "tags": []}]})];
+    let mut docs: Vec<(String, Value, GenCfg)> = vec![];
+    for mask in 0..8u32 {
+        let name = format!("crate:{}{}{}", if mask & 1 != 0 { "types " } else { "" }, if mask & 2 != 0 { "errors " } else { "" }, if mask & 4 != 0 { "services" } else { "" });
+        let d = json!({"version": 1, "types": if mask & 1 != 0 { types.clone() } else { vec![] }, "errors": if mask & 2 != 0 { errors.clone() } else { vec![] }, "services": if mask & 4 != 0 { services.clone() } else { vec![] }, "extensions": {}});
+        docs.push((name.trim().to_string(), d, GenCfg { exhaustive: mask % 3 == 0, serialize_empty_collections: mask % 2 == 1, strip_prefix: if mask & 1 != 0 { Some("com.palantir".into()) } else { None }, build_crate: Some((format!("c03-crate-{}", mask), "1.2.3".into())) }));
+    }
+    let n = if tier == Tier::Quick { 3 } else { 25 };
+    for i in 0..n {
+        let ir = irrand::random_ir(rng, &irrand::Opts::default());
+        docs.push((format!("crate:seeded#{}", i), ir, GenCfg { exhaustive: rng.chance(1, 2), serialize_empty_collections: rng.chance(1, 2), strip_prefix: None, build_crate: Some((format!("c03-crate-s{}", i), "0.1.0".into())) }));
+    }
+    let root = PathBuf::from("/verif/work/c03-crates");
+    let _ = std::fs::remove_dir_all(&root);
+    std::fs::create_dir_all(&root).unwrap();
+    let mut members = vec![];
+    for (k, (name, ir, cfg)) in docs.iter().enumerate() {
+        match irgen::generate(ir, cfg) {
+            Err(e) => {
+                cs.push("crate-mode", "noop".into(), "noop".into(), true, format!("{} {:?}", name, cfg));
+                cs.fail_last("generation-failed:crate-mode", format!("generation failed for {} under {:?}: {} — IR {}", name, cfg, e.chars().take(300).collect::<String>(), serde_json::to_string(ir).unwrap().chars().take(1500).collect::<String>()));
+            }
+            Ok(tree) => {
+                for (p, text) in &tree {
+                    let path = root.join(format!("m{}", k)).join(p);
+                    std::fs::create_dir_all(path.parent().unwrap()).unwrap();
+                    std::fs::write(path, text).unwrap();
+                }
+                let has = tree.contains_key("Cargo.toml") && tree.contains_key("src/lib.rs");
+                cs.push("crate-mode", "noop".into(), "noop".into(), true, format!("{} {:?}: {} files", name, cfg, tree.len()));
+                if !has {
+                    cs.fail_last("crate-mode:no-manifest", format!("crate output for {} has no Cargo.toml / src/lib.rs: {:?}", name, tree.keys().collect::<Vec<_>>()));
+                } else {
+                    members.push(k);
+                }
+            }
+        }
+    }
+    let ws = format!("[workspace]\nresolver = \"2\"\nmembers = [{}]\n\n[patch.crates-io]\nconjure-object = {{ path = \"/repo/conjure-object\" }}\nconjure-error = {{ path = \"/repo/conjure-error\" }}\nconjure-http = {{ path = \"/repo/conjure-http\" }}\n", members.iter().map(|k| format!("\"m{}\"", k)).collect::<Vec<_>>().join(", "));
+    std::fs::write(root.join("Cargo.toml"), ws).unwrap();
+    let _ = std::fs::copy("/verif/harness/Cargo.lock", root.join("Cargo.lock"));
+    let out = Command::new("cargo").args(["build", "--offline", "--workspace", "--message-format=json", "--target-dir", "/verif/work/c03-target"]).current_dir(&root).env("CARGO_NET_OFFLINE", "true").env("RUSTFLAGS", "-Awarnings").output();
+    match out {
+        Err(e) => {
+            cs.push("crate-mode", "noop".into(), "noop".into(), true, "cargo build of the generated crates".into());
+            cs.fail_last("compile:cargo-unavailable", e.to_string());
+        }
+        Ok(o) => {
+            let mut by_doc: BTreeMap<usize, Vec<String>> = BTreeMap::new();
+            for line in String::from_utf8_lossy(&o.stdout).lines() {
+                if let Ok(v) = serde_json::from_str::<Value>(line) {
+                    if v["reason"] == "compiler-message" && v["message"]["level"] == "error" {
+                        let msg = v["message"]["message"].as_str().unwrap_or("").to_string();
+                        let code = v["message"]["code"]["code"].as_str().unwrap_or("").to_string();
+                        let member = v["manifest_path"].as_str().unwrap_or("").to_string();
+                        let doc = member.split("c03-crates/m").nth(1).and_then(|r| r.split('/').next()).and_then(|d| d.parse::<usize>().ok());
+                        if let Some(d) = doc {
+                            if !msg.starts_with("aborting") && !msg.starts_with("could not compile") {
+                                by_doc.entry(d).or_default().push(format!("{} {}", code, msg));
+                            }
+                        }
+                    }
+                }
+            }
+            let ok = o.status.success();
+            cs.push("crate-mode", "noop".into(), "noop".into(), true, format!("cargo build of {} generated crates: {}", members.len(), if ok { "ok" } else { "failed" }));
+            if !ok && by_doc.is_empty() {
+                cs.fail_last("compile:unattributed", format!("the generated crates do not build and no error points into one of them: {}", String::from_utf8_lossy(&o.stderr).chars().rev().take(700).collect::<String>().chars().rev().collect::<String>()));
+            }
+            for (d, errs) in by_doc {
+                let (name, ir, cfg) = &docs[d];
+                cs.push("crate-mode", "noop".into(), "noop".into(), true, format!("rustc on the crate generated for {} {:?}", name, cfg));
+                cs.fail_last(&format!("crate-does-not-compile:{}", errs[0].split(' ').next().unwrap_or("")), format!("the crate generated for {} under {:?} does not compile with its own manifest: {} — manifest {:?} — IR {}", name, cfg, errs.iter().take(3).cloned().collect::<Vec<_>>().join(" | "), std::fs::read_to_string(root.join(format!("m{}", d)).join("Cargo.toml")).unwrap_or_default(), serde_json::to_string(ir).unwrap().chars().take(1200).collect::<String>()));
+            }
+        }
+    }
 }
